@@ -110,7 +110,7 @@ def line_d2(px, py, x1, y1, x2, y2):
     return cr * cr / uu
 
 
-def check_fragile(X, Y, q, d, xp, yp, i, frag, reduced):
+def check_fragile(X, Y, q, d, xp, yp, i, frag, reduced, removed=()):
     """The widest behaviour the code can have when the segments `frag` are numerically vertical: on such a segment it returns
     either the distance to its LINE with a foot whose ordinate is rounding noise, or its nearer end point. None if
     (d, (xp,yp), i) is explained that way (all other segments behaving correctly, those in `reduced` as in D16 / D17)."""
@@ -125,7 +125,7 @@ def check_fragile(X, Y, q, d, xp, yp, i, frag, reduced):
     tol = TOL * max(scale_of(X, Y, q), abs(d))
     lo, hi = [], []
     for j, sg in enumerate(segs):
-        if degenerate(sg):
+        if degenerate(sg) or j in removed:
             continue
         if j in frag:
             lo.append(line_d2(qx, qy, *sg)); hi.append(end_d2(qx, qy, *sg))
@@ -191,10 +191,11 @@ NP_CONT = ("npf", "npi")          # containers whose elements are numpy scalars 
 INT_CONT = ("npi", "int")         # containers of integers (lattice stream only)
 
 
-def check_answer(X, Y, q, d, xp, yp, i, reduced=()):
+def check_answer(X, Y, q, d, xp, yp, i, reduced=(), removed=()):
     """None if (d, (xp,yp), i) is the nearest point of the polyline to q, carried by segment i,
     at distance d; else what fails. `reduced` = indices of segments replaced by their two end
-    points when the minimum is taken (used only by classify() to recognise the listed defects)."""
+    points when the minimum is taken, `removed` = indices of segments left out of the minimum (both used only by
+    classify() to recognise the listed defects; the oracle proper, spec(), passes neither)."""
     for v in (d, xp, yp):
         if not isinstance(v, (int, float)) or isinstance(v, bool) or v != v or math.isinf(v):
             return "non-finite output %r" % ([d, xp, yp],)
@@ -211,7 +212,7 @@ def check_answer(X, Y, q, d, xp, yp, i, reduced=()):
     dq = math.sqrt((qx - fr(xp)) ** 2 + (qy - fr(yp)) ** 2)
     if abs(dq - d) > tol:
         return "returned distance %r differs from the distance %r between the query and the returned point" % (d, dq)
-    m2 = min((end_d2(qx, qy, *s) if j in reduced else seg_d2(qx, qy, *s)) for j, s in enumerate(segs))
+    m2 = min([(end_d2(qx, qy, *s) if j in reduced else seg_d2(qx, qy, *s)) for j, s in enumerate(segs) if j not in removed] or [seg_d2(qx, qy, *segs[i])])
     m = math.sqrt(m2)
     if abs(m - d) > tol:
         return "not-minimal: returned distance %r, minimum distance from the query to the polyline is %r" % (d, m)
@@ -1078,6 +1079,8 @@ class P(Prop):
             return "outside"
         if out["err"] == "err:zerodiv" and any(self.zerodiv_vertical(X, Y, q[:2]) for q in Q):
             return "vertical-segment"
+        if self.kept_vertical(X, Y) and out["err"] != "err:AnalyticalFeatureError":
+            return "vertical-segment"      # the case, not the pattern (see classify); the feature-table error is not raised by a projection
         return None
 
     def mapf_rows(self, case, out):
@@ -1198,7 +1201,10 @@ class P(Prop):
             return "ok"
         if any(isinstance(v, float) and (v != v or math.isinf(v)) for v in (d, xp, yp)):
             # numpy form of D16: `-c / b` with b == 0 yields inf / nan instead of raising
-            return "vertical-segment" if self.zerodiv_vertical(X, Y, q) else None
+            if self.zerodiv_vertical(X, Y, q):
+                return "vertical-segment"
+            ok_i = isinstance(i, int) and not isinstance(i, bool) and i in vert
+            return "vertical-segment" if ok_i else None      # non-finite values built on a kept vertical segment (see vertical_case)
         if vert and check_answer(X, Y, q, d, xp, yp, i, reduced=vert) is None:
             return "vertical-segment"
         if hfp and check_answer(X, Y, q, d, xp, yp, i, reduced=hfp) is None:
@@ -1221,6 +1227,41 @@ class P(Prop):
         frag = [j for j in live if is_near_vertical_fp(X, Y, j, tol)]
         if frag and check_fragile(X, Y, q, d, xp, yp, i, frag, vert + hfp) is None:
             return "vertical-segment"      # numerically vertical: same flaw (the line is parametrised by its intercept (0, -c / b))
+        return self.vertical_case(X, Y, q, row, live, vert, hfp, frag)
+
+    def vertical_case(self, X, Y, q, row, live, vert, hfp, frag):
+        """The listed finding `vertical-segment` as a CASE (geometry of the input), not as one failure pattern: on a kept,
+        exactly vertical segment (b == 0) proj_segment is defective (projection_droite's special case returns (x, a): pinned by
+        the test suite), so WHATEVER it answers there is that finding. A failing answer (d, p, i) of a query belongs to the
+        class iff it is explained by proj_segment answering anything at all on the kept vertical segments and everything else
+        being right:
+          * i is a kept vertical segment (the answer is the one proj_segment built on it), or
+          * i is not, and the answer is right once the kept vertical segments are left out of the minimum (point on segment
+            i, d = |q - p|, d minimal over the other segments — fp-horizontal ones as in D17, numerically vertical ones as
+            in the near-vertical finding): the defective calls reported something not smaller.
+        An index that is not an integer in 0..n-2, or a failure that involves no vertical segment, is never in the class."""
+        if not vert:
+            return None
+        d, xp, yp, i = row
+        n = len(X)
+        if isinstance(i, bool) or not isinstance(i, int) or not (0 <= i <= n - 2):
+            return None
+        if i in vert:
+            return "vertical-segment"
+        out = [j for j in range(n - 1) if j in vert or j not in live]
+        if check_answer(X, Y, q, d, xp, yp, i, removed=out) is None:
+            return "vertical-segment"
+        if hfp and check_answer(X, Y, q, d, xp, yp, i, reduced=hfp, removed=out) is None:
+            return "vertical-segment"
+        if len(hfp) > 1 and all(isinstance(v, (int, float)) and finite(v) for v in (d, xp, yp)):
+            tol_ = TOL * max(scale_of(X, Y, q), abs(d))
+            qx, qy = fr(q[0]), fr(q[1])
+            segs = segments(X, Y)
+            S = [j for j in hfp if math.sqrt(seg_d2(qx, qy, *segs[j])) < d - tol_]
+            if S and len(S) < len(hfp) and check_answer(X, Y, q, d, xp, yp, i, reduced=S, removed=out) is None:
+                return "vertical-segment"
+        if frag and check_fragile(X, Y, q, d, xp, yp, i, frag, hfp, removed=out) is None:
+            return "vertical-segment"
         return None
 
     def zerodiv_vertical(self, X, Y, q):
@@ -1231,6 +1272,13 @@ class P(Prop):
             if x1 == x2 and y1 != y2 and float(q[0]) == x1 and min(y1, y2) <= (y2 - y1) <= max(y1, y2):
                 return True
         return False
+
+    @staticmethod
+    def kept_vertical(X, Y):
+        """the polyline has an exactly vertical segment (x1 == x2, b == 0) that proj_polyligne does not skip: proj_segment is
+        called on it for every query, whatever the query — the input of the listed finding `vertical-segment`"""
+        return any(float(X[j]) == float(X[j + 1]) and float(Y[j]) != float(Y[j + 1])
+                   and not (abs(float(X[j]) - float(X[j + 1])) + abs(float(Y[j]) - float(Y[j + 1])) < 1e-16) for j in range(len(X) - 1))
 
     def classify(self, case, impl_out, msg):
         if not msg or impl_out is None or "plumbing" in impl_out:
@@ -1244,6 +1292,12 @@ class P(Prop):
             if impl_out["err"] == "err:zerodiv" and any(self.zerodiv_vertical(X, Y, q) for (X, Y, q, _) in qs):
                 # an earlier query of a mapOnTrack(track) call / of a sequence must not hide a different failure: every
                 # query before the raising one is not observable, so the exception is all there is to classify
+                return "vertical-segment"
+            if any(self.kept_vertical(X, Y) for (X, Y, q, _) in qs):
+                # the class is the CASE: an exception raised while a polyline with a kept exactly vertical segment is
+                # projected on (proj_segment is called on that segment for every query) is the listed finding, whichever
+                # exception the defective branch raises and for whichever query; on a polyline without such a segment
+                # every exception is reported
                 return "vertical-segment"
             return None
         if case["kind"] in ("mapt", "seq") and (impl_out.get("n") != len(qs) or len(impl_out.get("rows", [])) != len(qs)):
